@@ -185,6 +185,27 @@ pub fn child(case_file: &str, out: &str) {
     let text = std::fs::read_to_string(case_file).unwrap();
     let inst = Inst::from_text(&text);
     let json = inst.to_json();
+    // process history: in every other case the process has already answered a request before this
+    // one — a twin of the instance (same ids and sizes, other times, slot locations and demands). The
+    // answer to the case's own instance must not depend on it (state kept between calls).
+    let h = text.bytes().fold(1469598103934665603u64, |a, b| (a ^ b as u64).wrapping_mul(1099511628211));
+    if h % 2 == 0 {
+        let mut twin = inst.clone();
+        let shift = crate::inst::GRID * (1 + h / 2 % 3);
+        for d in twin.departures.iter_mut() {
+            for g in d.segs.iter_mut() {
+                g.departure += shift;
+                g.passengers += 1;
+            }
+        }
+        for m in twin.maint.iter_mut() {
+            m.start += shift;
+            m.end += shift;
+            m.loc = (m.loc + 1) % twin.nlocs;
+        }
+        let tj = twin.to_json();
+        let _ = guarded(|| server::solve_instance(tj));
+    }
     let started = Instant::now();
     let _ = solver::verif::take();
     let res = guarded(|| server::solve_instance(json));
